@@ -36,6 +36,8 @@ func errIface(w *World, msg string) IfaceV {
 func (w *World) recFn(r *Rec, fn string, sort string) Val {
 	if r == nil || r.empty {
 		switch fn {
+		case "sNull":
+			return false
 		case "empty", "sErr", "mErr":
 			return true
 		case "sPrio":
@@ -47,7 +49,7 @@ func (w *World) recFn(r *Rec, fn string, sort string) Val {
 	}
 	if r.mk {
 		switch fn {
-		case "empty", "sErr", "mErr":
+		case "empty", "sErr", "mErr", "sNull":
 			return false
 		case "sID", "mStr_id":
 			return r.id
@@ -87,6 +89,10 @@ func (w *World) newSymRec(name string) *Rec {
 	e, s, m := w.recFn(r, "empty", "Bool"), w.recFn(r, "sErr", "Bool"), w.recFn(r, "mErr", "Bool")
 	w.s.send(fmt.Sprintf("(assert (=> %s (and %s %s)))", term(e), term(s), term(m)))
 	w.s.send(fmt.Sprintf("(assert (=> %s %s))", term(m), term(s)))
+	// the JSON literal null: parses into anything without error and sets nothing
+	n := w.recFn(r, "sNull", "Bool")
+	w.s.send(fmt.Sprintf("(assert (=> %s (and (not %s) (not %s) (not %s) (not %s) (not %s) (= %s \"\") (= %s \"\") (= %s 0))))", term(n), term(e), term(s), term(m),
+		term(w.recFn(r, "mHas_id", "Bool")), term(w.recFn(r, "mHas_token", "Bool")), term(w.recFn(r, "sID", "String")), term(w.recFn(r, "sTok", "String")), term(w.recFn(r, "sPrio", "Int"))))
 	return r
 }
 
@@ -1182,6 +1188,31 @@ func (w *World) jsonUnmarshal(t *Thread, data Val, target IfaceV) Val {
 	isPayload := false
 	if n, ok := tp.Elem().(*types.Named); ok && n.Obj().Name() == "leadershipPayload" {
 		isPayload = true
+	}
+	if pp, ok := tp.Elem().(*types.Pointer); ok {
+		if n, ok := pp.Elem().(*types.Named); ok && n.Obj().Name() == "leadershipPayload" {
+			// target is **leadershipPayload: JSON null sets the inner pointer to nil, anything else fills a payload
+			if b.r == nil || b.r.empty {
+				return errIface(w, "unexpected end of JSON input")
+			}
+			if strings.HasPrefix(b.r.name, "raw:") {
+				panic(engErr("json.Unmarshal of concrete bytes into **leadershipPayload"))
+			}
+			if w.truth(w.recFn(b.r, "sNull", "Bool")) {
+				w.store(t, ptr, Ptr{})
+				return IfaceV{}
+			}
+			inner, _ := w.load(t, ptr).(Ptr)
+			if inner.o == nil {
+				inner = Ptr{o: w.newObj(zero(pp.Elem()), pp.Elem())}
+				w.store(t, ptr, inner)
+			}
+			if w.truth(w.recFn(b.r, "sErr", "Bool")) {
+				return errIface(w, "json: cannot unmarshal (abstract record)")
+			}
+			w.store(t, inner, StructV{[]Val{w.recFn(b.r, "sID", "String"), w.recFn(b.r, "sTok", "String"), w.recFn(b.r, "sPrio", "Int")}})
+			return IfaceV{}
+		}
 	}
 	_, isMap := tp.Elem().Underlying().(*types.Map)
 	if !isPayload && !isMap {
